@@ -202,7 +202,7 @@ def show_header(h):
 
 def op_token(op):
     k = op[0]
-    if k in ("L", "U", "D"):
+    if k in ("L", "U", "D", "K"):
         return k + "=" + show(op[1])
     if k == "W":
         return "W=" + show(op[1]) + ";" + show(op[2]) + ";" + (show(op[3]) if len(op) > 3 else "-")
@@ -236,6 +236,9 @@ def impl_run_ops(kbpk, ops):
             elif k == "D":
                 del kb.header.blocks[op[1]]
                 outs.append("none")
+            elif k == "K":
+                kb.kbpk = op[1]
+                outs.append("none")
             else:
                 outs.append("str:" + show(str(kb)))
         except Exception as e:  # noqa: BLE001
@@ -267,6 +270,8 @@ def with_tapes(cases, impl_results):
     items, where = [], []
     for ci, ((kbpk, ops), (_, outs)) in enumerate(zip(cases, impl_results)):
         for oi, (op, out) in enumerate(zip(ops, outs)):
+            if op[0] == "K":
+                kbpk = op[1]
             if op[0] == "W" and out.startswith("str:"):
                 items.append((kbpk, op[1], unshow_str(out[4:])))
                 where.append((ci, oi))
